@@ -353,6 +353,34 @@ class Run:
         self.mismatches += ms
         return ms
 
+    def gen_and_parse(self, module, consts, name, invariants=("Emit",), cmd="parse"):
+        """token-level Flow A: TLC emits token strings with the reference parse tree; the harness parses every
+        whitespace placement with the real parser (verif hook) / Compile"""
+        r = self.tlc(module, consts, invariants=invariants, name=name)
+        if not os.path.exists(r["outfile"]):
+            open(r["outfile"], "w").close()
+        mm = r["outfile"] + ".mismatch"
+        st = r["outfile"] + ".stats"
+        p = subprocess.run([self.xvh, cmd, "-in", r["outfile"], "-out", mm, "-stats", st], capture_output=True, text=True)
+        if p.returncode != 0:
+            raise ToolingError("%s replay failed (%d): %s%s" % (cmd, p.returncode, p.stdout, p.stderr[-2000:]))
+        stats = json.load(open(st))
+        self.traces += stats["cases"]
+        self.evaluations += stats["evaluations"]
+        self.distinct_nt = getattr(self, "distinct_nt", 0) + stats["distinct_nontrivial"]
+        self.samples += stats["samples"][:2]
+        self.stages.append({"stage": name, "flow": "A", "cases": stats["cases"], "evaluations": stats["evaluations"],
+                            "distinct_nontrivial": stats["distinct_nontrivial"], "mismatches": stats["mismatches"]})
+        self.log("%s %s: %s" % (cmd, name, p.stdout.strip()))
+        for line in open(mm):
+            m = json.loads(line)
+            m["stage"] = name
+            m["flow"] = "B"
+            self.mismatches.append(m)
+        if not self.keep:
+            os.remove(r["outfile"])
+        return stats
+
     def race(self, rounds, goroutines=8, stage="race"):
         """Real goroutines sharing compiled expressions under Go's race detector."""
         binary = self.build(race=True)
